@@ -5,6 +5,8 @@ CONSTANTS KeyOrd <- KeyAB
           NPaths = 1
           Blocked = {}
           Allow = {"crash_truncated"}
+          GenFlush = {1, 2, 3, 4}
+          WarmReads = TRUE
           InitCfgs <- FewCfgs
           WriteCfgs <- FewWrite
           MaxBegin = 2
